@@ -390,7 +390,9 @@ def _check_decorator(rep: Report, prog) -> None:
                 w = DW()
                 w.raising = raising
                 it = Interp(prog, w)
-                props = [Obj("functools:cached_property", nm, {"attrname": nm}, kind="cachedprop") for nm in names]
+                # inside a class body the decorator runs before `__set_name__` has given the
+                # cached properties their attribute name
+                props = [Obj("functools:cached_property", nm, {"attrname": None}, kind="cachedprop") for nm in names]
                 inst = Obj("sym_metanet.network:Network", "instance", {}, kind="instance")
                 inst.attrs["__dict__"] = {nm: f"cached-{nm}" for nm in present}
                 inst.attrs["__dict__"]["_graph"] = "graph"
@@ -400,6 +402,8 @@ def _check_decorator(rep: Report, prog) -> None:
                 try:
                     deco = it.call_function(FuncV(fi), props, {})
                     wrapper = it.call(deco, [w.rec], {}, fi.node, None)
+                    for pr in props:
+                        pr.attrs["attrname"] = pr.ident  # the class is now complete
                 except Raised as e:
                     rep.refuted("R5-decorator", label, where,
                                 f"building the invalidating wrapper raises {e.exc} ({e.msg})", key=f"R5|raise|{e.exc}")
